@@ -2,6 +2,7 @@ package main
 
 import (
 	"fmt"
+	"go/token"
 	"go/types"
 	"sort"
 	"strings"
@@ -171,6 +172,150 @@ func problemEvents(evs []Event) []Event {
 				out = append(out, e)
 			}
 		}
+	}
+	return out
+}
+
+// fieldIndex finds a field by name in a struct type (no embedding traversal).
+func fieldIndex(t *types.Struct, name string) int {
+	for i := 0; i < t.NumFields(); i++ {
+		if t.Field(i).Name() == name {
+			return i
+		}
+	}
+	return -1
+}
+
+// newTopObject allocates an object of named struct type with unknown fields and returns a pointer to it.
+func (ex *Exec) newTopObject(st *State, t types.Type, name string) *PtrV {
+	v := ex.topOf(st, t, name)
+	id := ex.newObj(st, v, t)
+	return &PtrV{Obj: id}
+}
+
+func (ex *Exec) newZeroObject(st *State, t types.Type) *PtrV {
+	id := ex.newObj(st, ex.zeroOf(t), t)
+	return &PtrV{Obj: id}
+}
+
+// setField sets a (possibly nested, dot separated) field of the struct object p points to.
+func (ex *Exec) setField(st *State, p *PtrV, path string, v Val) bool {
+	cur, ok := st.heap[p.Obj].(*StructV)
+	if !ok {
+		return false
+	}
+	parts := strings.Split(path, ".")
+	for i, name := range parts {
+		idx := fieldIndex(cur.T, name)
+		if idx < 0 {
+			return false
+		}
+		if i == len(parts)-1 {
+			cur.Fields[idx] = v
+			return true
+		}
+		switch nx := cur.Fields[idx].(type) {
+		case *StructV:
+			cur = nx
+		case *PtrV:
+			if nx.Unk || nx.Nil {
+				return false
+			}
+			c2, ok := st.heap[nx.Obj].(*StructV)
+			if !ok {
+				return false
+			}
+			cur = c2
+		default:
+			return false
+		}
+	}
+	return false
+}
+
+func (ex *Exec) getField(st *State, p *PtrV, path string) (Val, bool) {
+	cur, ok := st.heap[p.Obj].(*StructV)
+	if !ok {
+		return nil, false
+	}
+	parts := strings.Split(path, ".")
+	for i, name := range parts {
+		idx := fieldIndex(cur.T, name)
+		if idx < 0 {
+			return nil, false
+		}
+		if i == len(parts)-1 {
+			return cur.Fields[idx], true
+		}
+		switch nx := cur.Fields[idx].(type) {
+		case *StructV:
+			cur = nx
+		case *PtrV:
+			if nx.Unk || nx.Nil {
+				return nil, false
+			}
+			c2, ok := st.heap[nx.Obj].(*StructV)
+			if !ok {
+				return nil, false
+			}
+			cur = c2
+		default:
+			return nil, false
+		}
+	}
+	return nil, false
+}
+
+// namedType looks up a named type of a package of the module.
+func (p *Program) namedType(rel, name string) types.Type {
+	tp := p.TPkg(rel)
+	if tp == nil {
+		return nil
+	}
+	o := tp.Scope().Lookup(name)
+	if o == nil {
+		return nil
+	}
+	return o.Type()
+}
+
+// writesOf collects the byte content of every Write on an unknown writer along an outcome (events "call:invoke Write").
+func (ex *Exec) writesOf(o Outcome) [][]Seg {
+	var out [][]Seg
+	for _, e := range o.St.Events {
+		if e.Kind == "call:invoke Write" && len(e.Args) == 1 {
+			if sl, ok := e.Args[0].(*SliceV); ok {
+				segs, ok := ex.sliceSegs(o.St, sl)
+				if ok {
+					out = append(out, segs)
+				} else {
+					out = append(out, nil)
+				}
+			}
+		}
+	}
+	return out
+}
+
+func flatElems(segs []Seg) ([]Val, bool) {
+	var out []Val
+	for _, s := range segs {
+		if s.Run != nil {
+			return nil, false
+		}
+		out = append(out, s.Elems...)
+	}
+	return out, true
+}
+
+// beBytes: expected big-endian bytes of an integer value (spec side).
+func (st *State) beBytes(v *IntV, n int) []*IntV {
+	out := make([]*IntV, n)
+	for i := 0; i < n; i++ {
+		sh := uint(8 * (n - 1 - i))
+		x := st.Shift(token.SHR, v, int(sh))
+		x = st.Arith(token.AND, x, mkConst(0xFF, v.W, v.Signed), "")
+		out[i] = st.Convert(x, 8, false)
 	}
 	return out
 }
